@@ -228,9 +228,9 @@ PROPERTY = PropertySpec(
     contracts=list(WRAPPER_CONTRACTS),
     bounded=[FortranDifferential()],
     level='other',
-    explanation='FortranEngine.solve_t and _evaluate are executed symbolically from source against an assumed contract of the compiled ENGINE: the period is passed '
+    explanation='FortranEngine.solve_t, _evaluate and solve (two-period range of a four-period span) are executed symbolically from source against an assumed contract of the compiled ENGINE: the period is passed '
                 'one-based, check-variable rows are the one-based positions in the variable order, limits / tolerance / offset / option code unchanged; returned '
-                'codes map to the outcomes of the Python solver (status, iterations, result, exception class); values written back only on success paths. '
+                'codes map, period by period and in order, to the outcomes of the Python solver (status, iterations, solved flags, exception class; after an exception the later period is untouched); values written back as the engine returned them. '
                 'The ENGINE contract and the language-level equivalence are decided by the bounded differential (gfortran + ctypes, f2py calling convention).',
     level_text='proof obligations for the wrapper (all options and returned codes) + bounded differential run-time contract: per program the Fortran numbering / lag-lead constants are compared with the Python class, the '
                'source is compiled (gfortran) and evaluate / solve_t / solve driven through the real FortranEngine wrapper are compared with the '
